@@ -26,14 +26,18 @@ def check(rep, tier, seed):
                     continue
                 ops, n = [], 0
                 lens = rng.choice([[1], [7], [4096], [1, 2, 3, 5, 8, 13, 100000], [64, 1000]])
+                # every fourth case reads through the integer call (ov_read, 16-bit): the frames it returns are counted per link
+                # like the float reads (the model has no integer read: these cases are compared on counts, holes and errors only)
+                intread = (k % 4 == 3)
+                rd = "ri:%d" if intread else "rf:%d"
                 while n < total + 3000 and len(ops) < 300:
                     ln = lens[len(ops) % len(lens)]
-                    ops.append("rf:%d" % ln)
+                    ops.append(rd % (ln * 16 if intread else ln))
                     n += min(ln, 64)
-                ops += ["rf:100000"] * min(2500, total // 32 + 40)      # drain the rest
+                ops += [rd % (65536 if intread else 100000)] * min(2500, total // 32 + 40)      # drain the rest
                 text = "case %d %d %d %d 0 %s\nops %s\n" % (k, mode, mr, k, fi["data"].hex(), " ".join(ops))
                 cases.append((text, {"case": k, "Ns": fi["Ns"], "kinds": fi["kinds"], "seekable": mode, "maxread": mr,
-                                     "request_lengths": lens, "nontrivial": True}))
+                                     "request_lengths": lens, "int_reads": intread, "nontrivial": True}))
                 k += 1
     results = vfx.run_cases("C10", cases, wd)
     metas = [c[1] for c in cases]
@@ -59,7 +63,7 @@ def check(rep, tier, seed):
                     bad_prop.append({"kind": l, "case": kk, "meta": m, "cases_file": cfile})
                 if l.startswith("holes ") and l.split()[1:2] not in ([], ["0"]):
                     bad_prop.append({"kind": "hole/error indication on an intact stream: " + l, "case": kk, "meta": m, "cases_file": cfile})
-                if l.startswith("op rf:"):
+                if l.startswith(("op rf:", "op ri:")):
                     t = l.split()
                     try:
                         rc, lk = int(t[3]), int(t[-1])
@@ -73,7 +77,7 @@ def check(rep, tier, seed):
             if got != exp:
                 bad_prop.append({"kind": "path did not deliver the same sample counts as the packet-level decode", "case": kk, "meta": m,
                                  "expected": exp, "got": got, "cases_file": cfile})
-            if m["seekable"]:
+            if m["seekable"] and not m.get("int_reads"):
                 a = [l for l in li if not l.startswith("prop ")]
                 b = mc.get(kk)
                 if b is not None:
@@ -85,7 +89,7 @@ def check(rep, tier, seed):
             rep.add_case((tuple(m["Ns"]), m["seekable"], m["maxread"], tuple(m["request_lengths"])), nontrivial=True,
                          sample=m if int(kk) % 17 == 0 else None)
     rep.coverage["rule"] = ("each file decoded through (1) vorbisfile seekable, (2) vorbisfile streaming, (3) the packet-level API; read callback capped "
-                            "at 1, 2, 3, 7, 13, 255, 2047..2049, 65535 bytes; request lengths 1, 7, 4096, mixed; PCM compared bit for bit, no hole/error "
+                            "at 1, 2, 3, 7, 13, 255, 2047..2049, 65535 bytes; request lengths 1, 7, 4096, mixed; every fourth case through ov_read (16-bit frames counted per link); PCM compared bit for bit, no hole/error "
                             "return allowed, per-link counts equal; seekable cases also against VFile.v; every case non-trivial")
     rep.coverage["distribution"] = dist
     if bad_prop:
